@@ -41,6 +41,7 @@ TOL = {"float64": 1e-12, "float32": 2e-6, "bfloat16": 2e-2, "float16": 4e-3}
 
 
 def cases(tier: str, seed: int) -> List[Dict[str, Any]]:
+    import torch
     from models.ops import OPS, lattice
 
     out: List[Dict[str, Any]] = []
@@ -49,6 +50,33 @@ def cases(tier: str, seed: int) -> List[Dict[str, Any]]:
         for name, op in OPS.items():
             for cfg in lattice(op, 1, fixed={"dtype": "float32"}, restrict={}):
                 out.append({"kind": "fn", "op": name, "cfg": cfg, "backend": be, "seed": seed})
+            # pairs of hyperparameter deviations at the default shape (e.g. mult x constraint), float32 and float64
+            shape_like = {"batch", "n", "m", "k", "fin", "fout", "cin", "cout", "L", "S", "d", "dv", "V", "D", "N", "nd",
+                          "right_batched", "pattern", "dtype"}
+            restr = {k: [v[0]] for k, v in op.coords.items() if k in shape_like}
+            for dt in ("float32", "float64"):
+                one = {repr(sorted(c.items(), key=str)) for c in lattice(op, 1, fixed={"dtype": dt}, restrict=restr)}
+                for cfg in lattice(op, 2, fixed={"dtype": dt}, restrict=restr):
+                    if repr(sorted(cfg.items(), key=str)) not in one:
+                        out.append({"kind": "fn", "op": name, "cfg": cfg, "backend": be, "seed": seed})
+            # requires_grad pattern: one float operand frozen at a time (bias-only fine-tuning, frozen embeddings)
+            from models.ops import default_cfg
+
+            base = dict(default_cfg(op), dtype="float32")
+            for extra in ({}, {"bias": True}, {"weight": True, "bias": True}):
+                if any(k not in op.coords for k in extra):
+                    continue
+                cfgz = dict(base, **extra)
+                if not op.valid(cfgz):
+                    continue
+                try:
+                    tz = op.make(cfgz, torch.Generator().manual_seed(0))
+                except (RuntimeError, ValueError, KeyError, IndexError):  # the builder cannot make this configuration
+                    continue
+                fl = [k for k, v in tz.items() if v.is_floating_point() and k != "attn_mask"]
+                if len(fl) >= 2:
+                    for fz in fl:
+                        out.append({"kind": "fn", "op": name, "cfg": cfgz, "backend": be, "seed": seed, "freeze": fz})
             for dt in ("float64", "bfloat16"):
                 from models.ops import default_cfg
 
@@ -187,7 +215,7 @@ def run_case(case: Dict[str, Any]) -> Dict[str, Any]:
         if not op.valid(cfg):
             return {"skipped": "invalid configuration"}
         dev = [k for k, v in op.coords.items() if cfg.get(k) != v[0] and k != "dtype"]
-        ident = f"fn|{be_name}|{op.name}|dtype={cfg['dtype']}|dev={'+'.join(dev) or 'none'}"
+        ident = f"fn|{be_name}|{op.name}|dtype={cfg['dtype']}|dev={'+'.join(dev) or 'none'}" + (f"|frozen={case['freeze']}" if case.get("freeze") else "")
         tol = TOL[cfg["dtype"]]
         if be_name == "inductor" and ((op.name == "dropout" and cfg["training"] and cfg["p"] > 0)
                                       or (op.name == "scaled_dot_product_attention" and cfg["dropout_p"] > 0)):
@@ -196,7 +224,7 @@ def run_case(case: Dict[str, Any]) -> Dict[str, Any]:
             tol = 5e-6  # the RMS statistic is computed in float32 by design
         try:
             t0 = op.make(cfg, torch.Generator().manual_seed(11))
-            diff = diff_names(op, t0, cfg)
+            diff = [k for k in diff_names(op, t0, cfg) if k != case.get("freeze")]
             names = list(t0)
 
             def mk() -> Any:
